@@ -32,7 +32,7 @@ def _er():
                  idict={"code": T.Const(ExperimentalResultAVP.code), "vendor_id": T.NoneS, "_avps": T.ListOf()})
 
 
-def _answer(sid, rc, er, extra):
+def _answer(sid, rc, er, extra, header=None):
     items, alias = [], {}
     if sid:
         alias["session_id_avp"] = ("_avps", len(items)); items.append(_sid())
@@ -43,7 +43,7 @@ def _answer(sid, rc, er, extra):
     if er:
         alias["experimental_result_avp"] = ("_avps", len(items)); items.append(_er())
     return T.Obj(B.DiameterAnswer,
-                 idict={"_header": header_shape(), "_avps": T.ListOf(*items), "_loaded": T.Const(False)},
+                 idict={"_header": header or header_shape(), "_avps": T.ListOf(*items), "_loaded": T.Const(False)},
                  alias=alias)
 
 
